@@ -679,7 +679,7 @@ func checkRuntimeRelease(c *report.Ctx) {
 	if u := fn(c, "L/appctx", "UpdateAppCtxWithRuntimeRelease"); u != nil {
 		uf := an.NewFacts(u)
 		ok := false
-		n := 0
+		n, unjustified := 0, 0
 		holds := func(alt []an.Fact, pred func(an.Fact) bool) bool {
 			for _, ft := range alt {
 				if pred(ft) {
@@ -723,12 +723,19 @@ func checkRuntimeRelease(c *report.Ctx) {
 					n, isC := an.ConstInt(r.Y)
 					return isC && n == ')'
 				})
+				// the other way to store: there is no identity yet (the stored release is known empty)
+				noneYet := holds(alt, func(ft an.Fact) bool {
+					x, z, _ := an.LenSign(ft)
+					return x != nil && z && an.IsResultOf(an.Strip(x, true), "L/appctx.GetRuntimeRelease", -1)
+				})
 				if longer && notClosed {
 					ok = true
+				} else if !noneYet {
+					unjustified++
 				}
 			}
 		}
-		c.Check("R-GUARD", an.FuncName(u)+"/fixed-once-features-appended", "an existing identity is replaced only by a longer one and only while it does not yet end in ')' (features are appended once)", ok && n == 2, fpos(u), n, "store sites: %d; guarded overwrite present: %v", n, ok)
+		c.Check("R-GUARD", an.FuncName(u)+"/fixed-once-features-appended", "an existing identity is replaced only by a longer one and only while it does not yet end in ')' (features are appended once)", ok && n == 2 && unjustified == 0, fpos(u), n, "store sites: %d; guarded overwrite present: %v; stores neither guarded nor made while no identity exists: %d", n, ok, unjustified)
 	}
 }
 
